@@ -311,7 +311,8 @@ func genC09(tier string, r *rng) {
 		"Upgrade":               {" websocket", " WebSocket", "websocket", "\t websocket \t", " websocket2", " h2c, websocket", "", " web socket"},
 		"Connection":            {" Upgrade", " upgrade", " keep-alive, Upgrade", " Upgrade, keep-alive", " keep-alive,upgrade,x", " keep-alive", " notupgrade", " upgradex, keep-alive", "", " \"upgrade\"", " keep-alive Upgrade", " Upgrade;q=1"},
 		"Sec-WebSocket-Version": {" 13", "13", " 12", " 14", " 013", " 13 ", "", " 13, 12", " x"},
-		"Sec-WebSocket-Key":     {" dGhlIHNhbXBsZSBub25jZQ==", " dGhlIHNhbXBsZSBub25jZQ=", " dGhlIHNhbXBsZSBub25jZQ===", "", " !!!!!!!!!!!!!!!!!!!!!!!!", " dGhlIHNhbXBsZSBub25jZQ==dGhlIHNhbXBsZSBub25jZQ==", "\tAAAAAAAAAAAAAAAAAAAAAA==  "},
+		"Sec-WebSocket-Key":     {" dGhlIHNhbXBsZSBub25jZQ==", " dGhlIHNhbXBsZSBub25jZQ=", " dGhlIHNhbXBsZSBub25jZQ===", "", " !!!!!!!!!!!!!!!!!!!!!!!!", " dGhlIHNhbXBsZSBub25jZQ==dGhlIHNhbXBsZSBub25jZQ==", "\tAAAAAAAAAAAAAAAAAAAAAA==  ",
+			" AAAAAAAAAAAAAAAAAAAAAAAA", " dGhlIHNhbXBsZSBub25jZQE=", " AAAA====AAAAAAAAAAAAAAAA"},
 	}
 	names := []string{"Host", "Upgrade", "Connection", "Sec-WebSocket-Version", "Sec-WebSocket-Key"}
 	for i, nm := range names {
